@@ -552,6 +552,19 @@ class _Builder:
         if isinstance(expr, ast.UnaryOp) and isinstance(expr.op, ast.Not):
             t, f = self.cond(expr.operand, cur, stmt)
             return f, t
+        if isinstance(expr, ast.IfExp):
+            # `a if c else b` as a condition: c decides which of a / b is the condition
+            ct, cf = self.cond(expr.test, cur, stmt)
+            tj, fj = g._new("join"), g._new("join")
+            for (start, sub) in ((ct, expr.body), (cf, expr.orelse)):
+                if start is None:
+                    continue
+                t, f = self.cond(sub, start, stmt)
+                if t is not None:
+                    g.edge(t, tj)
+                if f is not None:
+                    g.edge(f, fj)
+            return (tj if tj.pred else None), (fj if fj.pred else None)
         if isinstance(expr, ast.Compare) and len(expr.ops) == 1 and isinstance(expr.ops[0], (ast.NotIn, ast.NotEq, ast.IsNot)):
             # canonical polarity: `a not in b` is the false outcome of `a in b`
             pos = {ast.NotIn: ast.In, ast.NotEq: ast.Eq, ast.IsNot: ast.Is}[type(expr.ops[0])]()
